@@ -28,7 +28,15 @@ def cell_for(rng, system, setting, variant):
             al = float(rng.uniform(50, 115))
         a = float(rng.uniform(4, 9))
         return [a, a, a, al, al, al]
-    c = gen.conforming_cell(rng, system, setting, "orth" if variant in ("orth", "pseudo") else None)
+    c = gen.conforming_cell(rng, system, setting, "orth" if variant in ("orth", "pseudo", "long") else None)
+    if variant == "long" and system in ("triclinic", "monoclinic", "orthorhombic", "tetragonal", "trigonal", "hexagonal") and setting != "rhombohedral":
+        # one very long axis: indices beyond 50 / 100 / 128 appear inside ordinary shells
+        c[0] = float(rng.uniform(3, 4))
+        if system in ("triclinic", "monoclinic", "orthorhombic"):
+            c[1] = float(rng.uniform(3, 4))
+        else:
+            c[1] = c[0]
+        c[2] = float(rng.uniform(130, 320))
     if variant == "pseudo":
         # pseudo-symmetric metric: free axes equal to within 1e-6..1e-5, so that inequivalent reflections have
         # sintl values closer than 1e-6 (ordering, column 4 and boundary semantics are exercised on near-ties)
